@@ -422,6 +422,8 @@ type Interp struct {
 	Paths      int
 	Steps      int
 	budgetHit  bool
+	basePaths  int // Paths/Steps at the start of the current top-level Run/Apply (budgets are per exploration)
+	baseSteps  int
 }
 
 type Outcome struct {
@@ -450,6 +452,7 @@ func (in *Interp) defaults() {
 // Run explores fn applied to args starting from st (nil = fresh state).
 func (in *Interp) Run(st *State, fn *ssa.Function, args []AV, free []AV) []Outcome {
 	in.defaults()
+	in.basePaths, in.baseSteps = in.Paths, in.Steps
 	if st == nil {
 		st = newState()
 	}
@@ -467,6 +470,7 @@ func (in *Interp) Run(st *State, fn *ssa.Function, args []AV, free []AV) []Outco
 // Apply continues from st by applying a function value.
 func (in *Interp) Apply(st *State, f AV, args []AV) []Outcome {
 	in.defaults()
+	in.basePaths, in.baseSteps = in.Paths, in.Steps
 	var out []Outcome
 	st = st.clone()
 	in.applyValue(st, f, args, nil, func(s *State, ret []AV, p bool) {
@@ -907,7 +911,7 @@ func (in *Interp) store(st *State, addr, v AV, pos token.Pos) {
 }
 
 func (in *Interp) instrs(st *State, b, pred *ssa.BasicBlock, idx int, k kont) {
-	if in.Paths > in.MaxPaths || in.Steps > 40*in.MaxPaths*10 {
+	if in.Paths-in.basePaths > in.MaxPaths || in.Steps-in.baseSteps > 40*in.MaxPaths*10 {
 		if !in.budgetHit && os.Getenv("GOCO_DEBUG") != "" {
 			fmt.Fprintf(os.Stderr, "budget: paths=%d max=%d steps=%d\n", in.Paths, in.MaxPaths, in.Steps)
 		}
@@ -1625,7 +1629,7 @@ func (in *Interp) finishUnknown(st *State, ctx *CallCtx, ev Event, rts []types.T
 	tag := fmt.Sprintf("ret:%s#%d", ev.Name(), len(st.Events))
 	ret := symResults(rts, tag)
 	if len(ret) == 1 {
-		ret[0] = Sym{Name: tag, T: rts[0]}
+		ret[0] = Sym{Name: tag, T: rts[0], NN: ctx.Fn != nil && neverNil(ctx.Fn, 0)}
 		ev.Ret = ret[0]
 	}
 	st.Events = append(st.Events, ev)
@@ -1659,6 +1663,62 @@ func (in *Interp) markOpaque(st *State, args []AV) {
 		}
 		o.Fields = map[string]AV{}
 	}
+}
+
+var neverNilMemo = map[*ssa.Function]bool{}
+
+// neverNil: every return of fn yields a freshly allocated object (or the result
+// of a callee for which that holds): the result of an un-inlined call of fn is non-nil.
+func neverNil(fn *ssa.Function, depth int) bool {
+	fn = bodyOf(fn)
+	if fn == nil || len(fn.Blocks) == 0 || depth > 4 || fn.Signature.Results().Len() != 1 {
+		return false
+	}
+	if v, ok := neverNilMemo[fn]; ok {
+		return v
+	}
+	neverNilMemo[fn] = false
+	var fresh func(v ssa.Value, d int) bool
+	fresh = func(v ssa.Value, d int) bool {
+		if d > 6 {
+			return false
+		}
+		switch x := v.(type) {
+		case *ssa.Alloc, *ssa.MakeClosure, *ssa.MakeMap, *ssa.MakeSlice, *ssa.MakeChan:
+			return true
+		case *ssa.Call:
+			if c := x.Call.StaticCallee(); c != nil {
+				return neverNil(c, depth+1)
+			}
+		case *ssa.Phi:
+			for _, e := range x.Edges {
+				if !fresh(e, d+1) {
+					return false
+				}
+			}
+			return true
+		case *ssa.ChangeType:
+			return fresh(x.X, d+1)
+		case *ssa.MakeInterface:
+			return fresh(x.X, d+1)
+		}
+		return false
+	}
+	ok := true
+	n := 0
+	for _, b := range fn.Blocks {
+		for _, ins := range b.Instrs {
+			if r, isRet := ins.(*ssa.Return); isRet {
+				n++
+				if len(r.Results) != 1 || !fresh(r.Results[0], 0) {
+					ok = false
+				}
+			}
+		}
+	}
+	ok = ok && n > 0
+	neverNilMemo[fn] = ok
+	return ok
 }
 
 // havoc: an unknown call may have modified symbolic memory.
